@@ -17,7 +17,7 @@ META = dict(
         quick="dump_many formats xyz, pdb, mol2, sdf: 1..3 frames with differing atom counts (1-3 atoms) and contents (all "
               "numbers symbolic), iterable given as list / generator / generator raising at frame k; load_many of the "
               "written file compared with per-frame dump_one + load_one; truncation of the file at every line boundary "
-              "(nondeterministic end of file); one corrupted numeric field in any frame; load_many of gro / extxyz / fchk "
+              "(nondeterministic end of file); one corrupted (garbled or missing) numeric field in any frame; load_many of gro / extxyz / fchk "
               "trajectories written by independent layout writers (1-3 optimisation / IRC points of 2, 1, 3 steps; the harnesses "
               "of C03); trajectories in the published layouts of gro, "
               "xyz, sdf, mol2, pdb with differing atom counts and one frame whose title is empty or blank: load_many == "
@@ -208,6 +208,8 @@ def h_load_many_corrupt(ctx, fmt="xyz", nframes=3):
         if err0 is not None or len(full) != nframes:
             return
         k = ctx.choice(list(range(nframes)), label="corrupt-frame")
+        kind = ctx.choice(["garble", "blank"], label="corruption")     # "?????" in the field / the field is missing
+        fill = "?" if kind == "garble" else " "
         text = ctx.read_text(path)
         # the first coordinate of the first atom of frame k
         if ctx.mode == "sym":
@@ -219,14 +221,14 @@ def h_load_many_corrupt(ctx, fmt="xyz", nframes=3):
                         break
             if target is None:
                 raise core.PathAbort("token of the field to corrupt not found")
-            bad = text.replace(target, "?" * len(target), 1)
+            bad = text.replace(target, fill * len(target), 1)
         else:
             # concrete replay: corrupt the same field by locating frame k's first atom line
-            bad = _corrupt_concrete(fmt, text, k)
+            bad = _corrupt_concrete(fmt, text, k, fill)
         p2 = ctx.tmp_path("bad." + rt.FILENAMES[fmt])
         ctx.write_text(p2, bad)
         got, err, wl = _load_all(api, p2)
-        cls = f"{fmt},frame={k}/{nframes}"
+        cls = f"{fmt},frame={k}/{nframes},{kind}"
         ctx.oblige("malformed-frame-raises-LoadError-when-reached", err is not None, cls=cls,
                    detail=f"yielded {len(got)} frames, error={err}")
         ctx.oblige("frames-before-the-malformed-one-are-yielded", len(got) == k, cls=cls, detail=f"{len(got)}")
@@ -319,7 +321,7 @@ def h_text_trajectory(ctx, fmt="gro", nframes=3):
             ctx.oblige("frame-equals-single-frame-load", f, cls=f"{fmt},frame={k}", detail=where)
 
 
-def _corrupt_concrete(fmt, text, k):
+def _corrupt_concrete(fmt, text, k, fill="?"):
     lines = text.splitlines(keepends=True)
     starts = []
     if fmt == "xyz":
@@ -346,7 +348,7 @@ def _corrupt_concrete(fmt, text, k):
     import re
     floats = list(re.finditer(r"-?\d+\.\d+", line))
     m = floats[0]
-    lines[li] = line[:m.start()] + "?" * (m.end() - m.start()) + line[m.end():]
+    lines[li] = line[:m.start()] + fill * (m.end() - m.start()) + line[m.end():]
     return "".join(lines)
 
 
